@@ -51,6 +51,13 @@ def check(ctx):
             p = b.path([0], [remove.bb], cut_edges=set(edges)) if edges else [0]
             ctx.add(f"1.budget-left-{name}", "GUARD", p is None, f"extraction only while the {name} budget is not exhausted",
                     sites=[f"{n} tests"], site_key=name, witness=None if p is None else {"path": b.describe_path(p)})
+            # ... and it is re-tested between two extractions (the budget shrinks with every extracted transaction)
+            fit = {"gas": gas, "size": size}.get(name, [])      # for gas and size the per-transaction fit test also protects the budget
+            edges2 = set(edges) | {(sw.bb, lab) for sw, pol in fit for lab in sw.edges_for_truth(False if pol else True)}
+            p2 = b.path([remove.target], [remove.bb], cut_edges=edges2) if edges and remove.target is not None else [0]
+            ctx.add(f"1.budget-retested-between-extractions-{name}", "GUARD", p2 is None,
+                    f"after a transaction was extracted the {name} budget is tested again before the next one is extracted (otherwise one pass over the executable set can exceed it)",
+                    sites=[remove.where()], site_key=name + ":again", witness=None if p2 is None else {"path": b.describe_path(p2)})
         # excluded contracts: the true edge of `excluded_contracts.contains(..)` returns to the outer loop
         outer = [c for c in b.calls_to("core::iter::traits::iterator::Iterator::next") if atom_match(Origins(b, 1).atoms(c.args[0]), MAP)]
         ctx.expect_sites("1.outer-loop", outer, exactly=1, what="loop over the sorted executable transactions")
@@ -125,6 +132,10 @@ def check(ctx):
             nes = [c for c in b4.calls_to(NE4) if c.bb in b4.live]
             pushes = [c for c in b4.calls_to("alloc::vec::Vec::push") if any(ctx.same_local(b4, c.args[0], ne.args[1], depth=2) for ne in nes)]
             targets = pushes if pushes else nes
+            hd4 = [c for c in b4.calls_to(HD4) if c.bb in b4.live]
+            if hd4 and pushes:
+                ctx.add(f"4.{name}-tested-transaction-is-the-promoted-one", "PROV", all(ctx.same_local(b4, hd4[0].args[1], p_.args[1], depth=1) for p_ in pushes),
+                        "has_dependencies is asked about the dependent that is promoted", sites=[hd4[0].where()], site_key=name + ":same")
             ctx.guarded(f"4.{name}-promotion-only-if-no-remaining-parent", b4, targets, t4, truth=False,
                         detail="a dependent of a committed transaction is promoted to executable only if it has no other parent in the pool "
                                "(otherwise the child can be listed before, or without, its remaining parent)")
